@@ -376,6 +376,20 @@ end GoEval
 def fprintOutcome : String :=
   " ".intercalate (Gen.FloatPrint.literalText.map fun r => s!"{r.1}={r.2}")
 
+/-- how Go reads one numeric token: kind, and the float32 / float64 it becomes at a typed position -/
+def golitOutcome (text : String) : String :=
+  let cs := text.toList
+  if !Goml.GoConst.isFloatText cs && cs.length > 1 && cs.head? == some '0' then "octal-int" else
+  match Goml.GoConst.litValL cs with
+  | .error _ => "bad"
+  | .ok v =>
+    let bitsAt (ty : String) : String :=
+      match Goml.GoConst.convertFloat ty v with
+      | .ok b => GoEval.hexOf b
+      | .error _ => "overflow"
+    let kind := match v with | .int _ => "int" | .flt _ => "float" | .bool _ => "bool"
+    s!"{kind} f32={bitsAt "float32"} f64={bitsAt "float64"}"
+
 def runLine (l : String) : String :=
   let (id, rest) := splitTab l
   let unDash (s : String) : String := if s == "-" then "" else s
@@ -399,6 +413,7 @@ def runLine (l : String) : String :=
     | some b => s!"{id}\t{GoEval.hexOf b}"
     | none => s!"{id}\tnone"
   | some (.list [.atom "fprint"]) => s!"{id}\t{fprintOutcome}"
+  | some (.list [.atom "golit", .atom text]) => s!"{id}\t{golitOutcome text}"
   | some (.list [.atom "parse", .atom rust, .atom s]) =>
     match IntTy.ofRust rust with
     | some t =>
